@@ -92,9 +92,9 @@ theorem intoField_denote (name ty : String) (nl : Bool) (strat : Option Strategy
       unfold buildDataTypeWith at hb
       obtain ⟨t, _, hdt⟩ := bind_ok_inv hb
       have hbuilt := buildDataTypeOfTerm_built t cs dt hdt
-      obtain ⟨h1, h2, _⟩ := side_repr_of_built hbuilt hc nl
+      obtain ⟨h1, _⟩ := side_repr_of_built hbuilt hc nl
       have hiff := validate_iff_valid (.mk name dt (normNullable dt nl) (withStrategy md strat))
-        (by simpa [rangeField] using h1) (by simpa [entriesField] using h2)
+        (by simpa [rangeField] using h1)
       cases hv : validateField (.mk name dt (normNullable dt nl) (withStrategy md strat)) with
       | ok u =>
         have := hiff.mp hv
